@@ -134,11 +134,12 @@ class Scheduler:
             if event != "call":
                 return None
             fn = frame.f_code.co_filename
-            for suf in TRACED_SUFFIXES:
-                if fn.endswith(suf):
-                    if fn.endswith(OPCODE_SUFFIXES):
-                        frame.f_trace_opcodes = True
-                    return local_shared if fn.endswith(SHARED_SUFFIXES) else local
+            # the whole package (write handlers, compile handlers, data types ... - class-level tables and memos live
+            # anywhere) except the generated parser; of the ANTLR runtime only the cache-bearing modules
+            if ("/explorerscript/" in fn and "/explorerscript/antlr/" not in fn) or fn.endswith(TRACED_SUFFIXES):
+                if fn.endswith(OPCODE_SUFFIXES):
+                    frame.f_trace_opcodes = True
+                return local_shared if fn.endswith(SHARED_SUFFIXES) else local
             return None
 
         return glob
